@@ -36,11 +36,11 @@ Full statement / proved / missing
                        Fragment: the parameterless core types, Integer[…], String[…] (size constrained; the exact-value
                        form directly inside Optional/NotUndef), Boolean[b], Enum[…] (incl. the case-insensitivity flag),
                        Regexp[/…/], Pattern[…], Optional NotUndef Type Sensitive Iterable Iterator, Variant[…],
-                       Array[…], Hash[…], Collection[…] — arbitrarily nested, all Int64 bounds, all string contents.
+                       Array[…], Hash[…], Collection[…], Tuple[…] (with and without a size) — arbitrarily nested, all Int64 bounds, all string contents.
                        The full statement `C05_type_roundtrip_full` (over the whole `Ty`) is false exactly at the
                        property's stated exception: `C05_exact_string_prints_plain`.
                        Missing (no theorem; direct predicate on the implementation only): Float[…] (float rendering),
-                       Tuple, Struct, Callable, Runtime, Init, Like, Object, TypeSet, aliases, TypeReference and the leaf
+                       Struct, Callable, Runtime, Init, Like, Object, TypeSet, aliases, TypeReference and the leaf
                        types with parameters (known findings C05-leaf-type-params, -lazy-type, -nominal-type,
                        -callable-block).
 -/
@@ -148,14 +148,15 @@ theorem C05_type_reprint (env : Env) (t : Ty) (h : WFTy env.rxOK t) :
 def sampleTy : Ty :=
   .hash (.wrap .optional (.strVal ['i', 't', '\'', 's']))
     (.variant [.array (.int (-9223372036854775808) 5) 1 9223372036854775807, .enum [['a'], ['b', '\\']] true,
-               .pattern [['\\', 'd', '+'], []], .wrap .type_ (.strSz 0 10), .array tyUnit 0 0, .named "Data".toList])
+               .pattern [['\\', 'd', '+'], []], .wrap .type_ (.strSz 0 10), .array tyUnit 0 0, .named "Data".toList,
+               .tuple [.bool (some true), .regexp ['a', '/', 'b']] (some (1, 9223372036854775807)), .tuple [tyString] none])
     2 2
 example : WFTy envEx.rxOK sampleTy := by
-  simp only [sampleTy, WFTy, WFTys, inI64, i64min, i64max, tyUnit, envEx]
+  simp only [sampleTy, WFTy, WFTys, inI64, i64min, i64max, tyUnit, tyString, envEx]
   decide
 example : parseType envEx (syms (printTy sampleTy)) = some sampleTy :=
   C05_type_roundtrip_partial envEx sampleTy (by
-    simp only [sampleTy, WFTy, WFTys, inI64, i64min, i64max, tyUnit, envEx]; decide)
+    simp only [sampleTy, WFTy, WFTys, inI64, i64min, i64max, tyUnit, tyString, envEx]; decide)
 
 /-- the stated exception is real: `String['x']` prints as `String`, which resolves to the unconstrained String -/
 theorem C05_exact_string_prints_plain : ¬ C05_type_roundtrip_full := by
